@@ -30,12 +30,26 @@ INF = float("inf")
 from harness.stubs import Handler  # noqa: E402
 
 
+# Two order-preserving embeddings of the model's time lattice (q, r) into Time(quotient, remainder): the plain one, and
+# one in which the quotient is huge and the remainders of different times are closer than the spacing of doubles at the
+# quotient (the situation after a long run; quotient + remainder as one float would no longer tell them apart).
+FINE = False
+
+
+def tq(q):
+    return float(2 ** 50 + q) if FINE else float(q)
+
+
+def tr(r, rdiv):
+    return r * 2.0 ** -45 if FINE else r / rdiv
+
+
 def real_time(t, rdiv):
     if t[0] == 1000000:
         return Time(INF, INF)
     if t[0] == -1000000:
         return Time(-INF, -INF)
-    return Time(float(t[0]), t[1] / rdiv)
+    return Time(tq(t[0]), tr(t[1], rdiv))
 
 
 def read_array(sched):
@@ -109,7 +123,7 @@ def replay(beh, max_counter, rdiv, nhandlers, tolerant):
         # --- compare the abstract state projected from the real object
         arr = read_array(heap)
         era = obs["era"]
-        want_arr = [(float(q), r / rdiv, hh, c + (off if era[hh - 1] == 0 else 0)) for q, r, hh, c in obs["arr"]]
+        want_arr = [(tq(q), tr(r, rdiv), hh, c + (off if era[hh - 1] == 0 else 0)) for q, r, hh, c in obs["arr"]]
         # entries of a handler written in era 0 keep their era-0 counters until deleted by the reset; the reset deletes
         # them all, so within one array all entries of a handler are of its current era.
         if arr != want_arr:
@@ -135,12 +149,18 @@ def main():
         for obs in beh:
             k = obs["op"]["name"] + ":" + obs["op"]["err"]
             kinds[k] = kinds.get(k, 0) + 1
-        r = replay(beh, spec["max_counter"], spec["rdiv"], spec["nhandlers"], spec.get("tolerant", False))
-        if r is not None:
-            r["behaviour"] = idx
-            fails.append(r)
-            if len(fails) >= 5:
+        global FINE
+        for FINE in (False, True):
+            r = replay(beh, spec["max_counter"], spec["rdiv"], spec["nhandlers"], spec.get("tolerant", False))
+            if r is not None:
+                r["behaviour"] = idx
+                if FINE:
+                    r["what"] += " (times embedded as quotient 2^50 + q, remainder r * 2^-45)"
+                fails.append(r)
                 break
+        FINE = False
+        if len(fails) >= 5:
+            break
     json.dump(dict(behaviours=len(spec["behaviours"]), steps=steps, kinds=kinds, fails=fails), sys.stdout)
 
 
